@@ -3,6 +3,7 @@ values and shadowing across sibling blocks are not decided)."""
 import re
 
 from .lib import hir as H
+from .lib import decide as D
 from .lib import mir as M
 from .lib import emit as E
 from .lib.vmarms import vm_arms
@@ -76,9 +77,33 @@ def run(F, R, tier):
         txt = H.render(H.body_of(rs))
         R.note("resolve: scans %s with filter %s" % ("newest first (iter().rev())" if ".iter().rev()" in txt else "?",
                                                       "(symbol.depth <= depth)" if "(symbol.depth <= depth)" in txt else "?"))
-        # results for outer symbols: Global/Builtin returned as is, others through define_free
-        R.ob("resolve-free-capture", "non-global outer symbols are turned into free symbols", "self.define_free(obj)" in txt and
-             "SymbolScope::Global | SymbolScope::BuiltinFn | SymbolScope::BuiltinVar" in txt, "", F.loc(rs))
+        # results for outer symbols: Global/Builtin returned as is, every other kind through define_free — the decision
+        # of the innermost conditional around the define_free call, as a table over the outer symbol's scope
+        body = H.body_of(rs)
+        holders = [x for x in H.walk(body) if x.get("k") in ("if", "match") and not H.is_try(x) and
+                   any(c.get("k") in ("call", "mcall") and H.last(c.get("callee") or "") == "define_free" for c in H.walk(x))]
+        holders.sort(key=H._size)
+        ok, det = False, "no conditional around define_free"
+        for hnode in holders:
+            rows, why = D.table_expr(F, hnode, keep=("define_free", "resolve"))
+            if rows is None:
+                det = why
+                continue
+            keys = {k for e, _ in rows for k in e}
+            if not any(k.endswith(": SymbolScope") for k in keys):
+                continue
+            scope_keys = [k for k in keys if k.endswith(": SymbolScope")]
+            roles = [(r"^%s$" % re.escape(scope_keys[0]), "scope")] + [(r".*", "x%d" % n) for n in range(1)]
+            cls = [(e, "free" if "define_free" in str(r) else ("none" if str(r).endswith("None") else "same")) for e, r in rows]
+            cls = [(e, r) for e, r in cls if all(k == scope_keys[0] for k in e)]
+            ok, det = D.check(cls, [(r"^%s$" % re.escape(scope_keys[0]), "scope")],
+                              {"scope": ("Global", "Local", "BuiltinFn", "BuiltinVar", "Free", "Function")},
+                              lambda e: "same" if e["scope"] in ("Global", "BuiltinFn", "BuiltinVar") else "free")
+            ok = ok and len(cls) == len(rows)
+            if len(cls) != len(rows):
+                det = "the decision also depends on %s" % sorted(keys - set(scope_keys[:1]))
+            break
+        R.ob("resolve-free-capture", "non-global outer symbols are turned into free symbols", ok, det, F.loc(rs))
     if rs is not None:
         b = H.body_of(rs)
         rec = [c for c in H.walk(b) if c.get("k") == "mcall" and c["m"] == "resolve" and "outer" in H.render(c["recv"])]
@@ -86,16 +111,52 @@ def run(F, R, tier):
         R.ob("outer-lookup-depth", "the enclosing table is not filtered by the inner function's block depth", arg == "MAX",
              "outer.resolve(name, %s)%s" % (arg, "" if arg == "MAX" else ": block depths are counted per function scope; passing this scope's depth hides block-local bindings of the "
                                           "enclosing function from a nested function, or shows it bindings of a block that has ended"), F.loc(rs))
-        conds = [H.render(x["c"]) for x in H.walk(b) if x.get("k") == "if" and "symbol.depth" in H.render(x["c"])]
-        R.ob("free-symbol-visible", "a captured symbol is found again at any depth of the capturing function (one capture per variable)",
-             conds == ["((symbol.depth <= depth) || (symbol.scope == SymbolScope::Free))"], str(conds), F.loc(rs))
+        # the selection predicate of the local lookup: the condition of the `if` in the loop over the name's symbols, or
+        # the closure handed to find / rfind / position — as a decision table: visible iff depth <= limit or captured
+        preds = []
+        newest_first = []
+        for x in H.walk(b):
+            if x.get("k") == "mcall" and x["m"] in ("find", "rfind", "position", "rposition", "find_map", "filter", "any", "max_by_key", "min_by_key", "last") \
+                    and x.get("args") and H.strip(x["args"][0]).get("k") == "closure" and "depth" in H.render(x["args"][0]):
+                preds.append(H.strip(x["args"][0])["body"])
+                revs = H.render(x["recv"]).count(".rev()")
+                # the first match of a newest-first scan: find/position over a reversed iterator, or rfind/rposition over a forward one
+                newest_first.append((x["m"] in ("find", "position") and revs == 1) or (x["m"] in ("rfind", "rposition") and revs == 0))
+            if x.get("k") == "match" and x.get("src", "").startswith("ForLoop") and x["scrut"].get("k") == "call" and x["scrut"].get("args") and \
+                    H.last(x["scrut"].get("callee") or "") == "into_iter":
+                conds = [y for y in H.walk(x) if y.get("k") == "if" and "depth" in H.render(y["c"]) and any(z.get("k") in ("ret", "break") for z in H.walk(y["t"]))]
+                if conds:
+                    preds.append(conds[0]["c"])
+                    newest_first.append(H.render(x["scrut"]["args"][0]).count(".rev()") == 1 and len(conds) == 1)
+        R.ob("newest-first", "the lookup returns the first visible symbol of a newest-first scan of the name's bindings (a later `let` of a name hides an earlier one)",
+             bool(newest_first) and all(newest_first), "%d scans over the name's symbols, newest-first first-match: %s" % (len(newest_first), newest_first), F.loc(rs))
+        ok, det = False, "no selection predicate over the name's symbols found"
+        for pr in preds:
+            rows, why = D.table_expr(F, pr)
+            if rows is None:
+                det = why
+                continue
+            roles = [(r"^depth < \w+\.depth$", "deeper"), (r"^\w+\.scope : SymbolScope$", "scope"), (r"^\w+\.depth < depth$", "shallower"),
+                     (r"^depth == \w+\.depth$|^\w+\.depth == depth$", "same")]
+            doms = {"deeper": (True, False), "scope": ("Free", "other")}
+            ok, det = D.check(rows, roles[:2], doms, lambda e: (e["scope"] == "Free") or not e["deeper"])
+            if ok:
+                break
+        R.ob("free-symbol-visible", "a symbol is visible at its own depth and shallower; a captured symbol is found again at any depth of the capturing "
+             "function (one capture per variable)", ok, det, F.loc(rs))
     eb = F.fn("compiler::symtab::SymbolTable::end_block")
     if R.anchor("SymbolTable::end_block (a block's bindings end with the block)", eb):
         t = H.render(H.body_of(eb))
-        cl = [x for x in H.walk(H.body_of(eb)) if x.get("k") == "closure"]
-        ct = H.render(cl[0]["body"]) if cl else ""
-        ok = "self.store.values_mut()" in t and ".retain(" in t and "(symbol.depth < depth)" in ct and "SymbolScope::Global" in ct and "SymbolScope::Local" in ct
-        R.ob("block-end-invalidation", "end_block(d) keeps, in every name's list, only symbols shallower than d (captured and builtin symbols stay)", ok, ct[:200], F.loc(eb))
+        cl = [x for x in H.walk(H.body_of(eb)) if x.get("k") == "mcall" and x["m"] in ("retain", "retain_mut") and x.get("args") and H.strip(x["args"][0]).get("k") == "closure"]
+        ok, det = False, "no retain(..) over the symbol lists"
+        if cl and ("self.store.values_mut()" in t or "self.store.iter_mut()" in t):
+            rows, why = D.table_expr(F, H.strip(cl[0]["args"][0])["body"])
+            det = why
+            if rows is not None:
+                roles = [(r"^\w+\.depth < depth$", "shallower"), (r"^\w+\.scope : SymbolScope$", "scope")]
+                doms = {"shallower": (True, False), "scope": ("Global", "Local", "BuiltinFn", "BuiltinVar", "Free", "Function")}
+                ok, det = D.check(rows, roles, doms, lambda e: e["shallower"] or e["scope"] not in ("Global", "Local"))
+        R.ob("block-end-invalidation", "end_block(d) keeps, in every name's list, only symbols shallower than d (captured and builtin symbols stay)", ok, det, F.loc(eb))
     df = F.fn("compiler::symtab::SymbolTable::define")
     if R.anchor("SymbolTable::define", df):
         txt = H.render(H.body_of(df))
@@ -129,7 +190,7 @@ def run(F, R, tier):
         ok = tl[:1] == ["self.scopes[self.scope_index].scope_depth += 1"] and "self.scopes[self.scope_index].scope_depth -= 1" in tl and \
             tl.index("self.scopes[self.scope_index].scope_depth -= 1") == len(tl) - 2
         R.ob("depth-pairing", "scope_depth += 1 … -= 1 bracket the block, unconditionally", ok, str(tl), F.loc(cb))
-        b = H.body_of(cb)
+        b = H.body_inl(F, cb, keep=("end_block", "compile_statement", "compile_statements"))
         seq = []
         lets = {}
         for st in b.get("stmts", []):
@@ -173,42 +234,96 @@ def run(F, R, tier):
     # ---- (d) closure plumbing ----------------------------------------------------------------------------------------------------
     g = F.fn(C + "compile_function_literal")
     if g is not None:
-        b = H.body_of(g)
-        txt = H.render(b)
+        b = H.body_inl(F, g, keep=("leave_scope", "enter_scope", "load_symbol", "emit", "add_constant"))
+        lets = {x["pat"]["id"]: x["init"] for x in H.walk(b) if x.get("k") == "let" and x.get("pat", {}).get("k") == "bind" and x.get("init") is not None}
+
+        def unlet(n, depth=0):
+            """value expression with single-assignment locals replaced by their initialisers (borrows / clones dropped)"""
+            n = H.strip(n)
+            lid = H.local_id(n)
+            if lid in lets and depth < 4:
+                return unlet(lets[lid], depth + 1)
+            return n
         seq = []
+        cap_id = None
+        loop_vars = {}
+        for x in H.walk(b):
+            if x.get("k") == "match" and x.get("src", "").startswith("ForLoop"):
+                # for <pat> in <iter>: the loop variable is bound by the Some(..) arm of the inner match
+                if not (x["scrut"].get("k") == "call" and H.last(x["scrut"].get("callee") or "") == "into_iter" and x["scrut"].get("args")):
+                    continue
+                it = H.render(H.strip(x["scrut"]["args"][0]))
+                for y in H.walk(x):
+                    if y.get("k") == "bind":
+                        loop_vars.setdefault(y["id"], it)
         for x in E.eval_order(b):
-            if x.get("k") == "let" and x.get("pat", {}).get("name") == "free_symbols":
-                seq.append("capture:" + H.render(x.get("init")))
+            if x.get("k") == "let" and x.get("init") is not None and "symtab.free_symbols" in H.render(H.strip(x["init"])) and x.get("pat", {}).get("k") == "bind":
+                seq.append("capture:" + H.render(H.strip(x["init"])))
+                cap_id = x["pat"]["id"]
             if x.get("k") in ("call", "mcall"):
                 nm = H.last(x.get("callee") or "")
                 if nm == "leave_scope":
                     seq.append("leave_scope")
                 if nm == "load_symbol":
-                    seq.append("load:" + H.render(x["args"][0]))
+                    a = H.strip(x["args"][0])
+                    src = loop_vars.get(H.local_id(a))
+                    seq.append("load:each of " + src if src else "load:" + H.render(a))
                 if nm == "emit" and H.last(H.ctor_of(H.strip(x["args"][0])) or "") == "Closure":
-                    seq.append("emit-closure:" + H.render(x["args"][1]))
-        ok = seq == ["capture:self.symtab.free_symbols.clone()", "leave_scope", "load:f.clone()", "emit-closure:&[idx, free_symbols.len()]"]
+                    arr = H.strip(x["args"][1])
+                    es = [H.render(unlet(e)) for e in arr.get("es", [])] if arr.get("k") == "array" else [H.render(arr)]
+                    seq.append("emit-closure:" + ", ".join(es[1:]))
+        cap = [t for t in seq if t.startswith("capture:")]
+        name = None
+        for x in H.walk(b):
+            if x.get("k") == "let" and x.get("pat", {}).get("id") == cap_id and cap_id is not None:
+                name = x["pat"]["name"]
+        ok = bool(cap) and seq[:2] == [cap[0], "leave_scope"] and cap[0] in ("capture:self.symtab.free_symbols", "capture:self.symtab.free_symbols.clone()") and \
+            len(seq) == 4 and re.fullmatch(r"load:each of (into_iter\()?%s(\.iter\(\))?\)?" % re.escape(name or "?"), seq[2]) is not None and \
+            seq[3] in ("emit-closure:%s.len()" % name, "emit-closure:self.symtab.free_symbols.len()")
         R.ob("closure-plumbing", "free symbols captured before leave_scope, loaded in order, count = free_symbols.len()", ok, str(seq), F.loc(g))
-        loops = [H.render(x["scrut"]) for x in H.walk(b) if x.get("k") == "match" and x.get("src", "").startswith("ForLoop")]
-        R.ob("closure-plumbing", "the load loop iterates &free_symbols in order", any("into_iter(&free_symbols)" in t for t in loops), str(loops), F.loc(g))
     arms = vm_arms(F, R)
+    KEEPVM = ("push", "pop", "top", "current_frame", "push_closure")
+
+    def norm(node):
+        """arm / function body with decoding helpers inlined and named intermediates substituted, as a tree"""
+        return H.unlet(H.inline_helpers(F, node, skip=lambda c: H.last(c) in KEEPVM or c.endswith("Closure::new")))
     if arms and arms.get("Closure"):
-        t = H.render(arms["Closure"]["body"])
-        R.ob("closure-plumbing", "VM Closure arm passes (const_idx, num_free) to push_closure", "self.push_closure(const_idx, num_free, line)?" in t, t[:200],
+        nb = norm(arms["Closure"]["body"])
+        cs = [c for c in H.walk(nb) if c.get("k") == "mcall" and H.last(c.get("callee") or "") == "push_closure"]
+        a = [D.canon_text(x) for x in cs[0]["args"]] if len(cs) == 1 else []
+        ok = len(a) >= 2 and "(ip + 1)" in a[0] and "(ip + 3)" in a[1] and "(ip + 1)" not in a[1]
+        R.ob("closure-plumbing", "VM Closure arm passes (const_idx, num_free) — the u16 at ip+1 and the byte at ip+3 — to push_closure", ok, str(a)[:200],
              "src/vm/interpreter.rs:%s" % arms["Closure"]["line"])
     pc = F.fn("vm::interpreter::VM::push_closure")
     if R.anchor("VM::push_closure", pc):
-        t = H.render(H.body_of(pc))
-        ok = "let idx = ((self.sp - num_free) + i); free.push(self.stack[idx].clone())" in t and "self.sp -= num_free" in t and \
-            "Closure::new(function.clone(), free)" in t and "ops::Range{start: 0, end: num_free}" in t
-        R.ob("closure-plumbing", "push_closure copies stack[sp-num_free+i], i = 0..num_free, then drops them", ok, t[:260], F.loc(pc))
+        nb = norm(H.body_of(pc))
+        t = D.canon_text(nb)
+        par = [q.get("name") for q in pc["hir"]["params"] if q.get("k") == "bind"]
+        nf = par[2] if len(par) >= 3 else "num_free"
+        e = re.escape
+        loop_form = re.search(r"into_iter\(ops::Range\{start: 0, end: %s\}\)" % e(nf), t) is not None and \
+            re.search(r"(\w+)\.push\(self\.stack\[\(\(self\.sp - %s\) \+ \w+\)\]\)" % e(nf), t) is not None
+        slice_form = re.search(r"self\.stack\[ops::Range\{start: \(self\.sp - %s\), end: self\.sp\}\]\.to_vec\(\)" % e(nf), t) is not None
+        drops = re.search(r"self\.sp -= %s\b" % e(nf), t) is not None or re.search(r"self\.sp = \(self\.sp - %s\)" % e(nf), t) is not None
+        m = re.search(r"Closure::new\(function, ([^()]*|self\.stack\[ops::Range\{start: \(self\.sp - %s\), end: self\.sp\}\]\.to_vec\(\))\)" % e(nf), t)
+        ok = (loop_form or slice_form) and drops and m is not None
+        R.ob("closure-plumbing", "push_closure copies stack[sp-num_free .. sp] in order, then drops those slots", ok,
+             "loop form: %s, slice form: %s, sp lowered by %s: %s, closure built from them: %s" % (loop_form, slice_form, nf, drops, bool(m)), F.loc(pc))
     if arms:
-        for op, want in (("GetFree", "curr_closure.free.borrow()[free_idx].clone()"), ("SetFree", "curr_closure.free.borrow_mut()[free_idx] = self.top(0, line)?")):
+        for op in ("GetFree", "SetFree"):
             a = arms.get(op)
-            if R.anchor("VM arm " + op, a):
-                t = H.render(a["body"])
-                R.ob("closure-plumbing", op + " indexes the current closure's free vector", want in t and "let curr_closure = self.current_frame().closure.clone()" in t,
-                     t[:200], "src/vm/interpreter.rs:%s" % a["line"])
+            if not R.anchor("VM arm " + op, a):
+                continue
+            nb = norm(a["body"])
+            cell = r"^self\.current_frame\(\)\.closure\.free(\.borrow(_mut)?\(\))?\[(.*\(ip \+ 1\).*)\]$"
+            if op == "GetFree":
+                vals = [D.canon_text(c["args"][0]) for c in H.walk(nb) if c.get("k") == "mcall" and H.last(c.get("callee") or "") == "push" and c.get("args")]
+                ok = len(vals) == 1 and re.search(cell, vals[0]) is not None
+            else:
+                asg = [(D.canon_text(x["l"]), D.canon_text(H.untry(x["r"]))) for x in H.walk(nb) if x.get("k") == "assign"]
+                vals = ["%s = %s" % p for p in asg]
+                ok = len(asg) == 1 and re.search(cell, asg[0][0]) is not None and re.search(r"^self\.top\(0, ", asg[0][1]) is not None
+            R.ob("closure-plumbing", op + " indexes the current closure's free vector with its operand", ok, str(vals)[:200], "src/vm/interpreter.rs:%s" % a["line"])
     # load_symbol / save_symbol: scope → opcode table
     for fn, want in (("load_symbol", {"Global": "GetGlobal", "Local": "GetLocal", "BuiltinFn": "GetBuiltinFn", "BuiltinVar": "GetBuiltinVar", "Free": "GetFree", "Function": "CurrClosure"}),
                      ("save_symbol", {"Global": "SetGlobal", "Local": "SetLocal", "Free": "SetFree"})):
